@@ -116,6 +116,13 @@ def query_evaluation_cannot_raise(ctx):
                     if not (_in_try_returning_false(n, g) or _type_guarded(n, v)):
                         bad.append(f"`{norm(n, 50)}` is applied to the point's value with neither a type test nor a "
                                    f"handler (a None tag value makes it raise TypeError)")
+            # the answer for a value the library call cannot take is False (a constant verdict of a library
+            # closure is only ever the `not applicable -> False` exit)
+            for r_ in walk_local(g.node):
+                if isinstance(r_, ast.Return) and r_.value is not None and const_value(r_.value) is not NOCONST \
+                        and const_value(r_.value) is not False:
+                    bad.append(f"`{norm(r_)}` (line {r_.lineno}): a value the operation does not apply to (None, a non-string) "
+                               f"must evaluate to False, not {const_value(r_.value)!r}")
             yield Ob("C09.R1", ["C09"], key + f" ({g.qual})", not bad,
                      "; ".join(bad) if bad else "library call is guarded", g.loc())
         else:
@@ -207,6 +214,13 @@ def path_failure_is_false(ctx):
     rets = [x for x in walk_local(r.node) if isinstance(x, ast.Return)]
     if not any(norm(x.value) == v for x in rets):
         bad.append("resolver does not return the walked value")
+    for x in rets:
+        if norm(x.value) != v:
+            bad.append(f"`{norm(x, 50)}`: the resolver answers something other than the walked value")
+    for x in walk_local(r.node):
+        if isinstance(x, ast.Raise) and not any(isinstance(a_, ast.ExceptHandler) for a_ in ancestors(x) if in_subtree(a_, r.node)):
+            bad.append(f"`{norm(x, 50)}` (line {x.lineno}): the resolver gives up although no step of the path failed "
+                       f"(e.g. for an empty tag/field set, on which a map function or test may still be true)")
     swallow = [h for t in walk_local(r.node) if isinstance(t, ast.Try) for h in t.handlers
                if not any(isinstance(s, ast.Raise) for s in h.body)]
     if swallow:
